@@ -120,6 +120,7 @@ def run_units(unit_names, tier, jobs=None):
                 todo.append(o)
     solved = {}
     if todo:
+        texts = {(o['unit'], o['idx']): (o.get('smt2'), o.get('smt2_lite'), o.get('smt2_mid')) for o in todo}
         work = [(o, cfg['timeout_ms'], True, cfg['both']) for o in todo]
         if jobs == 1:
             done = [_solve_job(w) for w in work]
@@ -128,6 +129,27 @@ def run_units(unit_names, tier, jobs=None):
                 done = list(pool.imap_unordered(_solve_job, work, chunksize=2))
         for o in done:
             solved[(o['unit'], o['idx'])] = o
+        # second chance for undecided obligations: larger budget, machine no longer saturated
+        again = [o for o in done if o.get('status') == 'unknown']
+        if again and len(again) <= 40:
+            work = []
+            for o in again:
+                t = texts[(o['unit'], o['idx'])]
+                o2 = dict(o)
+                o2['smt2'], o2['status'] = t[0], None
+                if t[1]:
+                    o2['smt2_lite'] = t[1]
+                if t[2]:
+                    o2['smt2_mid'] = t[2]
+                work.append((o2, cfg['timeout_ms'] * 3, True, cfg['both']))
+            if jobs == 1:
+                done2 = [_solve_job(w) for w in work]
+            else:
+                with ctx.Pool(min(max(1, jobs // 2), len(work))) as pool:
+                    done2 = list(pool.imap_unordered(_solve_job, work, chunksize=1))
+            for o in done2:
+                o['retried'] = True
+                solved[(o['unit'], o['idx'])] = o
     for r in results:
         r['obligations'] = [solved.get((o['unit'], o['idx']), o) for o in r['obligations']]
         for o in r['obligations']:
